@@ -54,10 +54,11 @@ fn tagset(k: usize) -> Vec<String> {
     match k {
         0 => vec![],
         1 => vec!["a".into()],
-        2 => vec!["b".into()],
-        3 => vec!["a".into(), "b".into()],
+        // (a tag with an upper-case letter: tags are case-sensitive on every path)
+        2 => vec!["B".into()],
+        3 => vec!["a".into(), "B".into()],
         // one tag that reads like the two others written together
-        _ => vec!["ab".into()],
+        _ => vec!["aB".into()],
     }
 }
 
@@ -145,7 +146,7 @@ pub fn formulas_t(thorough: bool) -> Vec<TagExpr> {
     let mut v = formulas();
     if thorough {
         let t = |s: &str| TagExpr::Tag(s.into());
-        let atoms = vec![t("a"), t("b"), TagExpr::Not(Box::new(t("a"))), TagExpr::Not(Box::new(t("b")))];
+        let atoms = vec![t("a"), t("B"), TagExpr::Not(Box::new(t("a"))), TagExpr::Not(Box::new(t("B")))];
         let deep: Vec<TagExpr> = v[4..].to_vec();
         for f in &deep {
             for a in &atoms {
@@ -160,7 +161,7 @@ pub fn formulas_t(thorough: bool) -> Vec<TagExpr> {
 
 pub fn formulas() -> Vec<TagExpr> {
     let t = |s: &str| TagExpr::Tag(s.into());
-    let ops = vec![t("a"), t("b"), TagExpr::Not(Box::new(t("a"))), TagExpr::Not(Box::new(t("b")))];
+    let ops = vec![t("a"), t("B"), TagExpr::Not(Box::new(t("a"))), TagExpr::Not(Box::new(t("B")))];
     let mut v = ops.clone();
     for l in &ops {
         for r in &ops {
@@ -168,12 +169,12 @@ pub fn formulas() -> Vec<TagExpr> {
             v.push(TagExpr::Or(Box::new(l.clone()), Box::new(r.clone())));
         }
     }
-    for (l, r) in [("a", "b"), ("b", "a"), ("a", "a")] {
+    for (l, r) in [("a", "B"), ("B", "a"), ("a", "a")] {
         v.push(TagExpr::Not(Box::new(TagExpr::And(Box::new(t(l)), Box::new(t(r))))));
         v.push(TagExpr::Not(Box::new(TagExpr::Or(Box::new(t(l)), Box::new(t(r))))));
     }
     v.push(TagExpr::Or(
-        Box::new(TagExpr::And(Box::new(t("a")), Box::new(t("b")))),
+        Box::new(TagExpr::And(Box::new(t("a")), Box::new(t("B")))),
         Box::new(TagExpr::Not(Box::new(t("a")))),
     ));
     v
